@@ -57,25 +57,6 @@ theorem Erased.step {id : Nat} {n : Int} {parts ps : List ((Nat × Int) × Bytes
   intro id' hne
   rw [h3 id' hne, filterMap_erase_other id id' n hne]
 
-theorem partsOf_erase (id : Nat) (c0 : Nat) (parts : List ((Nat × Int) × Bytes)) :
-    ∀ (t : List (Option Int)) (c : Nat), c0 ≤ c → ConsecFrom c t →
-      partsOf (alErase (id, (c0 : Int)) parts) id t = partsOf parts id t := by
-  intro t
-  induction t with
-  | nil => intro _ _ _; rfl
-  | cons o t ih =>
-    intro c hc hcons
-    obtain ⟨ho, ht⟩ := hcons
-    subst ho
-    unfold partsOf at ih ⊢
-    rw [optMapM_cons, optMapM_cons, ih (c + 1) (by omega) ht]
-    simp only [Option.bind_some]
-    have : ((id, (c : Int) + 1) : Nat × Int) ≠ (id, (c0 : Int)) := by
-      intro h
-      simp only [Prod.mk.injEq, true_and] at h
-      omega
-    rw [alLookup_alErase_ne this]
-
 theorem sizesOk_cons {c : Bytes} {cs : List Bytes} (h : sizesOk (c :: cs) = true) :
     sizesOk cs = true ∧ (cs ≠ [] → c.length ≥ minPartSize) := by
   cases cs with
@@ -102,22 +83,30 @@ theorem optMapM_length {α β : Type} (f : α → Option β) :
         subst h
         simp [ih bs ht]
 
-/-- the loop of `complete_multipart_upload` on the part list `cnt+1, cnt+2, …, total` whose parts exist and have the
-    minimum size: it ends with the concatenation, having removed part files of this upload only -/
-theorem completeLoop_ok (id total : Nat) :
-    ∀ (l : List (Option Int)) (cnt : Nat) (acc : Bytes) (parts : List ((Nat × Int) × Bytes)) (cs : List Bytes),
-      ConsecFrom cnt l → total = cnt + l.length → partsOf parts id l = some cs → sizesOk cs = true →
-      ∃ ps, completeLoop id total l cnt acc parts = (ps, .ok (acc ++ cs.flatten)) ∧ Erased id parts ps := by
+/-- contents numbered `c+1, c+2, …` -/
+def numbered : Nat → List Bytes → List (Int × Bytes)
+  | _, [] => []
+  | c, x :: t => ((c : Int) + 1, x) :: numbered (c + 1) t
+
+theorem numbered_contents : ∀ (c : Nat) (cs : List Bytes), (numbered c cs).map (·.2) = cs
+  | _, [] => rfl
+  | c, x :: t => by simp [numbered, numbered_contents (c + 1) t]
+
+/-- the validation loop of `complete_multipart_upload` on the part list `cnt+1, cnt+2, …` whose parts all exist: the
+    listed parts with their contents, in list order -/
+theorem completeParts_ok (id : Nat) (parts : List ((Nat × Int) × Bytes)) :
+    ∀ (l : List (Option Int)) (cnt : Nat) (cs : List Bytes),
+      ConsecFrom cnt l → partsOf parts id l = some cs → completeParts id parts l cnt = .ok (numbered cnt cs) := by
   intro l
   induction l with
   | nil =>
-    intro cnt acc parts cs _ _ hp _
+    intro cnt cs _ hp
     unfold partsOf at hp
     simp at hp
     subst hp
-    exact ⟨parts, by simp [completeLoop], Erased.refl id parts⟩
+    rfl
   | cons o t ih =>
-    intro cnt acc parts cs hcons htot hp hsz
+    intro cnt cs hcons hp
     obtain ⟨ho, ht⟩ := hcons
     subst ho
     unfold partsOf at hp
@@ -131,31 +120,83 @@ theorem completeLoop_ok (id total : Nat) :
       | some cs' =>
         simp [hl, hrest] at hp
         subst hp
-        obtain ⟨hsz', hmin⟩ := sizesOk_cons hsz
-        have hlen : cs'.length = t.length := optMapM_length _ t cs' hrest
-        have hrest' : partsOf (alErase (id, ((cnt + 1 : Nat) : Int)) parts) id t = some cs' := by
-          rw [partsOf_erase id (cnt + 1) parts t (cnt + 1) (Nat.le_refl _) ht]
-          exact hrest
-        obtain ⟨ps, hloop, her⟩ := ih (cnt + 1) (acc ++ c) (alErase (id, ((cnt + 1 : Nat) : Int)) parts) cs' ht
-          (by simp at htot; omega) hrest' hsz'
-        refine ⟨ps, ?_, her.step⟩
         have hcast : ((cnt + 1 : Nat) : Int) = (cnt : Int) + 1 := by omega
-        have hsmall : ¬ ((cnt : Int) + 1 ≠ (total : Int) ∧ c.length < minPartSize) := by
-          rintro ⟨h1, h2⟩
-          by_cases hte : cs' = []
-          · subst hte
-            simp at hlen
-            have : t = [] := List.length_eq_zero_iff.mp hlen.symm
-            subst this
-            simp at htot
-            omega
-          · have := hmin hte
-            omega
-        rw [hcast] at hloop
-        unfold completeLoop
-        simp only [hcast, ne_eq, not_true_eq_false, if_false, hl, hsmall]
-        rw [hloop]
-        simp [List.append_assoc]
+        have := ih (cnt + 1) cs' ht hrest
+        unfold completeParts
+        simp only [hcast, ne_eq, not_true_eq_false, if_false, hl, this, numbered]
+
+/-- … one of whose parts was never uploaded: `InvalidPart` -/
+theorem completeParts_missing (id : Nat) (parts : List ((Nat × Int) × Bytes)) :
+    ∀ (l : List (Option Int)) (cnt : Nat),
+      ConsecFrom cnt l → partsOf parts id l = none → completeParts id parts l cnt = .error .InvalidPart := by
+  intro l
+  induction l with
+  | nil =>
+    intro cnt _ hp
+    unfold partsOf at hp
+    simp at hp
+  | cons o t ih =>
+    intro cnt hcons hp
+    obtain ⟨ho, ht⟩ := hcons
+    subst ho
+    unfold partsOf at hp
+    rw [optMapM_cons] at hp
+    simp only [Option.bind_some] at hp
+    have hcast : ((cnt + 1 : Nat) : Int) = (cnt : Int) + 1 := by omega
+    cases hl : alLookup (id, (cnt : Int) + 1) parts with
+    | none =>
+      unfold completeParts
+      simp only [hcast, ne_eq, not_true_eq_false, if_false, hl]
+    | some c =>
+      cases hrest : t.mapM (fun o => o.bind fun n => alLookup (id, n) parts) with
+      | some cs' => simp [hl, hrest] at hp
+      | none =>
+        have := ih (cnt + 1) ht hrest
+        unfold completeParts
+        simp only [hcast, ne_eq, not_true_eq_false, if_false, hl, this]
+
+/-- the size rule of the code (`part_number != total && size < 5 MiB`) on parts numbered up to `total` is the store's
+    (every part but the last has the minimum size) -/
+theorem partTooSmall_numbered (total : Nat) :
+    ∀ (cs : List Bytes) (cnt : Nat), total = cnt + cs.length → partTooSmall total (numbered cnt cs) = !sizesOk cs := by
+  intro cs
+  induction cs with
+  | nil => intro _ _; rfl
+  | cons x t ih =>
+    intro cnt htot
+    cases t with
+    | nil =>
+      simp only [List.length_cons, List.length_nil] at htot
+      have : ((cnt : Int) + 1 ≠ (total : Int)) = False := by
+        apply propext; constructor
+        · intro h; exact h (by omega)
+        · intro h; exact h.elim
+      simp [partTooSmall, numbered, sizesOk, this]
+    | cons y r =>
+      have hrec := ih (cnt + 1) (by simp only [List.length_cons] at htot ⊢; omega)
+      have hne : (cnt : Int) + 1 ≠ (total : Int) := by
+        simp only [List.length_cons] at htot; omega
+      have hstep : partTooSmall total (numbered cnt (x :: y :: r)) =
+          (decide (x.length < minPartSize) || partTooSmall total (numbered (cnt + 1) (y :: r))) := by
+        simp [partTooSmall, numbered, hne]
+      rw [hstep, hrec]
+      by_cases hx : x.length < minPartSize
+      · have : ¬ x.length ≥ minPartSize := by omega
+        simp [sizesOk, hx, this]
+      · have : x.length ≥ minPartSize := by omega
+        simp [sizesOk, hx, this]
+
+/-- removing the listed part files removes part files of this upload only -/
+theorem eraseParts_erased (id : Nat) : ∀ (ns : List Int) (parts : List ((Nat × Int) × Bytes)),
+    Erased id parts (eraseParts id ns parts) := by
+  intro ns
+  induction ns with
+  | nil => intro parts; exact Erased.refl id parts
+  | cons n r ih =>
+    intro parts
+    have : eraseParts id (n :: r) parts = eraseParts id r (alErase (id, n) parts) := rfl
+    rw [this]
+    exact (ih (alErase (id, n) parts)).step
 
 end S3V.FsStore
 
@@ -212,18 +253,12 @@ theorem sideTooLong_mono {b k : Bytes} (h : sideTooLong b k true = false) : side
   simp only [Bool.false_eq_true, if_false, decide_eq_false_iff_not, Nat.not_lt]
   omega
 
-/-- what must hold for the owner's `complete_multipart_upload` to be compared with the store: the part list is
-    `1, 2, …, m` [else fs:complete-requires-consecutive-parts, fs:complete-part-list-validation], every listed part exists
-    [fs:complete-missing-part-internal-error] with the minimum size [a failed complete consumes the upload:
-    fs:failed-complete-consumes-upload]; the bucket exists [fs:complete-into-missing-bucket], the key is canonical and its
-    path free; side-file names fit; an upload without metadata does not meet an old metadata file
-    [fs:stale-metadata-after-complete]; no checksums are recorded for the key [fs:stale-checksum-after-complete] -/
-def CompleteSuccessOk (s : State) (b k : Bytes) (id : Nat) (pl : List (Option Int)) : Prop :=
-  ConsecFrom 0 pl ∧
-  (match partsOf s.parts id pl with
-    | none => False
-    | some cs => sizesOk cs = true) ∧
-  bucketOk b = true ∧ CanonKey k ∧ sideTooLong b k true = false ∧
+/-- what must hold for an owner's `complete_multipart_upload` that passes validation to be compared with the store: the
+    bucket exists [fs:complete-into-missing-bucket] and the key's path is free; side-file names fit; an upload without
+    metadata does not meet an old metadata file [fs:stale-metadata-after-complete]; no checksums are recorded for the key
+    [fs:stale-checksum-after-complete] -/
+def CompleteSuccessOk (s : State) (b k : Bytes) (id : Nat) : Prop :=
+  sideTooLong b k true = false ∧
   (match keyPath k with
     | none => False
     | some p =>
@@ -233,9 +268,21 @@ def CompleteSuccessOk (s : State) (b k : Bytes) (id : Nat) (pl : List (Option In
   (alLookup (b, k, id) s.upMetas = none → alLookup (b, k) s.metas = none) ∧
   (alLookup (b, k) s.infos).getD {} = {}
 
+/-- what must hold for the owner's `complete_multipart_upload` to be compared with the store: the part list is
+    `1, 2, …, m` [else fs:complete-requires-consecutive-parts, fs:complete-part-list-validation]; the names are admissible
+    and the key canonical. A complete that fails validation — a listed part was never uploaded (`InvalidPart`), a part
+    other than the last is below the minimum size (`EntityTooSmall`) — is inside (since the repair of
+    fs:failed-complete-consumes-upload / fs:complete-missing-part-internal-error nothing is changed by it); one that passes
+    must meet `CompleteSuccessOk` -/
+def CompleteOwnerOk (s : State) (b k : Bytes) (id : Nat) (pl : List (Option Int)) : Prop :=
+  ConsecFrom 0 pl ∧ bucketOk b = true ∧ CanonKey k ∧ (keyPath k).isSome = true ∧
+  (match partsOf s.parts id pl with
+    | none => True
+    | some cs => sizesOk cs = true → CompleteSuccessOk s b k id)
+
 /-- `complete_multipart_upload` comparable: a non-empty part list is given [else fs:complete-part-list-validation], the
     upload exists for this bucket and key [fs:unknown-upload-code, fs:upload-not-bound-to-key], and if the requester owns
-    it the request is one that succeeds (`CompleteSuccessOk`) -/
+    it the request meets `CompleteOwnerOk` -/
 def CompleteOk (s : State) (who : Who) (b k : Bytes) (u : UploadRef) (parts : Option (List (Option Int))) : Prop :=
   match parts with
   | none => False
@@ -246,7 +293,7 @@ def CompleteOk (s : State) (who : Who) (b k : Bytes) (u : UploadRef) (parts : Op
     | some id =>
       match alLookup id s.uploads with
       | none => False
-      | some ui => ui.bucket = b ∧ ui.key = k ∧ (ui.owner = who → CompleteSuccessOk s b k id pl)
+      | some ui => ui.bucket = b ∧ ui.key = k ∧ (ui.owner = who → CompleteOwnerOk s b k id pl)
 
 end S3V.FsStore
 
@@ -359,74 +406,108 @@ theorem complete_refines (H : Hashes) (dl : Nat) {s : State} (hi : Inv s) {who :
         | nil => exact absurd rfl hne
         | cons o t =>
           by_cases hown : ui.owner = who
-          · obtain ⟨hcons, hparts, hbo, ⟨_, hcanon⟩, hshort, hpath, hmeta, hcks⟩ := hsucc hown
+          · obtain ⟨hcons, hbo, ⟨_, hcanon⟩, hksome, hrest⟩ := hsucc hown
             have hbd := bucketDir_of_bucketOk hbo
-            cases hcs : partsOf s.parts id (o :: t) with
-            | none => rw [hcs] at hparts; exact absurd hparts (by simp)
-            | some cs =>
-              rw [hcs] at hparts
-              simp only at hparts
-              cases hkp : keyPath k with
-              | none => rw [hkp] at hpath; exact absurd hpath (by simp)
-              | some p =>
-                rw [hkp] at hpath hcanon
-                simp only at hpath hcanon
-                cases ht : s.tree b with
-                | none => rw [ht] at hpath; exact absurd hpath (by simp)
-                | some tr =>
-                  rw [ht] at hpath
-                  simp only at hpath
-                  have hp : PathOk p := keyPath_pathOk hkp
-                  have hmem := tree_mem ht
-                  obtain ⟨ps, hloop, her⟩ := completeLoop_ok id (t.length + 1) (o :: t) 0 [] s.parts cs hcons
-                    (by simp) hcs hparts
-                  -- the store's side
-                  obtain ⟨ns, hs1, hs2, _, hs4⟩ := consec_spec (absParts s id) (o :: t) 0 hcons
-                  have hs4' : ns.mapM (fun n => alLookup n (absParts s id)) = some cs := by
-                    rw [hs4, ← hcs]
-                    unfold partsOf
-                    congr 1
-                    funext o'
-                    cases o' with
-                    | none => rfl
-                    | some n => simp [absParts_lookup hi]
-                  have hhas : alHas b (abs s).buckets = true := by
-                    rw [abs_alHas]; unfold State.tree at ht; simp [alHas, ht]
+            cases hkp : keyPath k with
+            | none => rw [hkp] at hksome; exact absurd hksome (by simp)
+            | some p =>
+              rw [hkp] at hcanon
+              simp only at hcanon
+              -- the store's side of the validation
+              obtain ⟨ns, hs1, hs2, _, hs4⟩ := consec_spec (absParts s id) (o :: t) 0 hcons
+              have hs4' : ns.mapM (fun n => alLookup n (absParts s id)) = partsOf s.parts id (o :: t) := by
+                rw [hs4]
+                unfold partsOf
+                congr 1
+                funext o'
+                cases o' with
+                | none => rfl
+                | some n => simp [absParts_lookup hi]
+              have hown' : ¬ (upOf s id ui).owner ≠ who := by simp [upOf, hown]
+              have hpp : (upOf s id ui).parts = absParts s id := rfl
+              cases hcs : partsOf s.parts id (o :: t) with
+              | none =>
+                -- a listed part was never uploaded: `InvalidPart` on both sides, nothing changes
+                have hm := completeParts_missing id s.parts (o :: t) 0 hcons hcs
+                rw [hcs] at hs4'
+                have hstep : step H dl s (.completeMultipartUpload who b k (some id) (some (o :: t))) =
+                    (s, .err .InvalidPart) := by
+                  simp [step, State.verify, hl, hown, objPath, hbd, hkp, hm]
+                have hspec : StoreSpec.step H (abs s) (.completeMultipartUpload who b k (some id) (some (o :: t))) =
+                    (abs s, .err .InvalidPart) := by
+                  simp [StoreSpec.step, hup, hown', hs1, hs2, hpp, hs4']
+                rw [hstep, hspec]
+                exact ⟨rfl, rfl, hi⟩
+              | some cs =>
+                rw [hcs] at hs4' hrest
+                simp only at hrest
+                have hm := completeParts_ok id s.parts (o :: t) 0 cs hcons hcs
+                have hlen : cs.length = (o :: t).length := by
+                  unfold partsOf at hcs
+                  exact optMapM_length _ _ _ hcs
+                have hts := partTooSmall_numbered (t.length + 1) cs 0 (by simp only [List.length_cons] at hlen; omega)
+                cases hsz : sizesOk cs with
+                | false =>
+                  -- a part other than the last is too small: `EntityTooSmall` on both sides, nothing changes
+                  rw [hsz] at hts
+                  have hstep : step H dl s (.completeMultipartUpload who b k (some id) (some (o :: t))) =
+                      (s, .err .EntityTooSmall) := by
+                    simp [step, State.verify, hl, hown, objPath, hbd, hkp, hm, hts]
                   have hspec : StoreSpec.step H (abs s) (.completeMultipartUpload who b k (some id) (some (o :: t))) =
-                      ({ ((abs s).setObj b k ⟨cs.flatten, (upOf s id ui).md, {}⟩) with
-                          uploads := alErase id (abs s).uploads }, .completed (some (etagOf H cs.flatten))) := by
-                    have hown' : ¬ (upOf s id ui).owner ≠ who := by simp [upOf, hown]
-                    have hpp : (upOf s id ui).parts = absParts s id := rfl
-                    simp [StoreSpec.step, hup, hown', hs1, hs2, hpp, hs4', hparts, hhas, Store.setObj]
-                  cases hum : alLookup (b, k, id) s.upMetas with
-                  | none =>
-                    obtain ⟨ds, hds, hnd, hcommit⟩ := commitFile_ok
-                      ({ s with uploads := alErase id s.uploads, parts := ps } : State) b p cs.flatten tr
+                      (abs s, .err .EntityTooSmall) := by
+                    simp [StoreSpec.step, hup, hown', hs1, hs2, hpp, hs4', hsz]
+                  rw [hstep, hspec]
+                  exact ⟨rfl, rfl, hi⟩
+                | true =>
+                  rw [hsz] at hts
+                  obtain ⟨hshort, hpath, hmeta, hcks⟩ := hrest hsz
+                  rw [hkp] at hpath
+                  simp only at hpath
+                  cases ht : s.tree b with
+                  | none => rw [ht] at hpath; exact absurd hpath (by simp)
+                  | some tr =>
+                    rw [ht] at hpath
+                    simp only at hpath
+                    have hp : PathOk p := keyPath_pathOk hkp
+                    have hmem := tree_mem ht
+                    have her : Erased id s.parts (eraseParts id ((numbered 0 cs).map (·.1)) s.parts) :=
+                      eraseParts_erased id _ s.parts
+                    have hcont : ((numbered 0 cs).map (·.2)).flatten = cs.flatten := by rw [numbered_contents]
+                    have hhas : alHas b (abs s).buckets = true := by
+                      rw [abs_alHas]; unfold State.tree at ht; simp [alHas, ht]
+                    have hspec : StoreSpec.step H (abs s) (.completeMultipartUpload who b k (some id) (some (o :: t))) =
+                        ({ ((abs s).setObj b k ⟨cs.flatten, (upOf s id ui).md, {}⟩) with
+                            uploads := alErase id (abs s).uploads }, .completed (some (etagOf H cs.flatten))) := by
+                      simp [StoreSpec.step, hup, hown', hs1, hs2, hpp, hs4', hsz, hhas, Store.setObj]
+                    obtain ⟨ds, hds, hnd, hcommit⟩ := commitFile_ok s b p cs.flatten tr
                       (by show (alLookup b s.buckets).getD [] = tr; unfold State.tree at ht; rw [ht]; rfl)
                       hpath (hi.tnd _ hmem) hp
-                    have hstep : step H dl s (.completeMultipartUpload who b k (some id) (some (o :: t))) =
-                        ({ s with uploads := alErase id s.uploads, parts := ps, buckets := alInsert b (alInsert p (.file cs.flatten) (tr ++ ds)) s.buckets },
-                          .completed (some (etagOf H cs.flatten))) := by
-                      simp [step, State.verify, hl, hown, hshort, hum, objPath, hbd, hkp, hloop, hcommit]
-                    rw [hstep, hspec]
-                    obtain ⟨h1, h2⟩ := complete_core (s' := { s with uploads := alErase id s.uploads, parts := ps, buckets := alInsert b (alInsert p (.file cs.flatten) (tr ++ ds)) s.buckets })
-                      hi hl hub huk ht hp hcanon hpath.2 hds hnd her hmeta hcks rfl (by rw [hum]; rfl) (by rw [hum]; rfl)
-                      rfl rfl rfl rfl
-                    exact ⟨rfl, h1, h2⟩
-                  | some m =>
-                    obtain ⟨ds, hds, hnd, hcommit⟩ := commitFile_ok
-                      ({ s with uploads := alErase id s.uploads, metas := alInsert (b, k) (.good m) s.metas, upMetas := alErase (b, k, id) s.upMetas, parts := ps } : State) b p cs.flatten tr
-                      (by show (alLookup b s.buckets).getD [] = tr; unfold State.tree at ht; rw [ht]; rfl)
-                      hpath (hi.tnd _ hmem) hp
-                    have hstep : step H dl s (.completeMultipartUpload who b k (some id) (some (o :: t))) =
-                        ({ s with uploads := alErase id s.uploads, metas := alInsert (b, k) (.good m) s.metas, upMetas := alErase (b, k, id) s.upMetas, parts := ps, buckets := alInsert b (alInsert p (.file cs.flatten) (tr ++ ds)) s.buckets },
-                          .completed (some (etagOf H cs.flatten))) := by
-                      simp [step, State.verify, hl, hown, hshort, hum, objPath, hbd, hkp, hloop, hcommit]
-                    rw [hstep, hspec]
-                    obtain ⟨h1, h2⟩ := complete_core (s' := { s with uploads := alErase id s.uploads, metas := alInsert (b, k) (.good m) s.metas, upMetas := alErase (b, k, id) s.upMetas, parts := ps, buckets := alInsert b (alInsert p (.file cs.flatten) (tr ++ ds)) s.buckets })
-                      hi hl hub huk ht hp hcanon hpath.2 hds hnd her hmeta hcks rfl (by rw [hum]; rfl) (by rw [hum]; rfl)
-                      rfl rfl rfl rfl
-                    exact ⟨rfl, h1, h2⟩
+                    cases hum : alLookup (b, k, id) s.upMetas with
+                    | none =>
+                      have hstep : step H dl s (.completeMultipartUpload who b k (some id) (some (o :: t))) =
+                          ({ s with buckets := alInsert b (alInsert p (.file cs.flatten) (tr ++ ds)) s.buckets,
+                                    parts := eraseParts id ((numbered 0 cs).map (·.1)) s.parts,
+                                    uploads := alErase id s.uploads },
+                            .completed (some (etagOf H cs.flatten))) := by
+                        simp [step, State.verify, hl, hown, hshort, hum, objPath, hbd, hkp, hm, hts, hcont, hcommit]
+                      rw [hstep, hspec]
+                      obtain ⟨h1, h2⟩ := complete_core (s' := { s with buckets := alInsert b (alInsert p (.file cs.flatten) (tr ++ ds)) s.buckets, parts := eraseParts id ((numbered 0 cs).map (·.1)) s.parts, uploads := alErase id s.uploads })
+                        hi hl hub huk ht hp hcanon hpath.2 hds hnd her hmeta hcks rfl (by rw [hum]; rfl) (by rw [hum]; rfl)
+                        rfl rfl rfl rfl
+                      exact ⟨rfl, h1, h2⟩
+                    | some m =>
+                      have hstep : step H dl s (.completeMultipartUpload who b k (some id) (some (o :: t))) =
+                          ({ s with buckets := alInsert b (alInsert p (.file cs.flatten) (tr ++ ds)) s.buckets,
+                                    metas := alInsert (b, k) (.good m) s.metas, upMetas := alErase (b, k, id) s.upMetas,
+                                    parts := eraseParts id ((numbered 0 cs).map (·.1)) s.parts,
+                                    uploads := alErase id s.uploads },
+                            .completed (some (etagOf H cs.flatten))) := by
+                        simp [step, State.verify, hl, hown, hshort, hum, objPath, hbd, hkp, hm, hts, hcont, hcommit]
+                      rw [hstep, hspec]
+                      obtain ⟨h1, h2⟩ := complete_core (s' := { s with buckets := alInsert b (alInsert p (.file cs.flatten) (tr ++ ds)) s.buckets, metas := alInsert (b, k) (.good m) s.metas, upMetas := alErase (b, k, id) s.upMetas, parts := eraseParts id ((numbered 0 cs).map (·.1)) s.parts, uploads := alErase id s.uploads })
+                        hi hl hub huk ht hp hcanon hpath.2 hds hnd her hmeta hcks rfl (by rw [hum]; rfl) (by rw [hum]; rfl)
+                        rfl rfl rfl rfl
+                      exact ⟨rfl, h1, h2⟩
           · have hown' : (upOf s id ui).owner ≠ who := hown
             simp [step, StoreSpec.step, State.verify, hl, hown, hup, hown', hi]
 
